@@ -216,17 +216,8 @@ def _has_type(v):
 
 
 def _s_hazards(spec):
-    """("typekey",): a dictionary with a `type` key inside the generated state (F-C14c);
-       ("moddump", j): modification j installs a non-empty dictionary at a path that a later modification overwrites (F-C14e)"""
-    hz = []
-    if _has_type(spec.get("st")):
-        hz.append(("typekey",))
-    mods = spec.get("mods") or []
-    for j, a in enumerate(mods):
-        if isinstance(a[1], dict) and a[1] and any(b[0] == a[0] for b in mods[j + 1:]):
-            hz.append(("moddump", j))
-            break
-    return hz
+    """("typekey",): a dictionary with a `type` key inside the generated state (F-C14c)"""
+    return [("typekey",)] if _has_type(spec.get("st")) else []
 
 
 def _s_repair(spec, hz):
@@ -234,12 +225,10 @@ def _s_repair(spec, hz):
     n = copy.deepcopy(spec)
     if hz[0] == "typekey":
         n["st"] = _retype(n["st"])
-    elif hz[0] == "moddump":
-        n["mods"][hz[1]][1] = "x"
     return n
 
 
-_S_CLASS = {"typekey": "type-key-in-state", "moddump": "modattr-dump"}
+_S_CLASS = {"typekey": "type-key-in-state"}
 
 
 class C14(Check):
@@ -258,7 +247,7 @@ class C14(Check):
                   "JSON-decoding and deserialising onto freshly created objects yields exactly the dumped state (C20's json_roundtrip and "
                   "frames_split_regardless_of_chunking composed with Serialize/Deserialize); for every prefix of AtomicFile's system-call sequence and every crash "
                   "view (any earlier directory state, arbitrary contents of unsynced files) the target path reads as the complete old or the complete new content, and the only new name left behind is the temp file. "
-                  " The full statements are false of the pinned code in several ways (F-C14a-e,g), carried as kernel-checked counterexamples "
+                  " The full statements are false of the pinned code in several ways (F-C14a-d,g), carried as kernel-checked counterexamples "
                   "and/or corpus witnesses replayed on the real code on every run; EVERY failing generated case is minimised and attributed to a known finding only "
                   "if repairing that recorded hazard in the minimised witness and re-running makes the failure vanish. The models are tied to the code by running the real functions on the same inputs "
                   "and diffing every observation; the specification predicates are evaluated on the implementation's own observations")
